@@ -461,6 +461,10 @@ class FnTr:
             if bty[0] == "msg":
                 idx, _ = self.tr(e[2], env, NAT(64))
                 return f"nib {par(base)} {par(idx)}", NAT()
+            if bty[0] == "list" and bty[1][0] == "nat":
+                # a vector of u8 / u16 / ..: the element keeps its width
+                idx, _ = self.tr(e[2], env, NAT(64))
+                return f"nib {par(base)} {par(idx)}", bty[1]
             if bty[0] == "arr":
                 if e[2][0] == "lit_int":
                     return self.proj(base, bty, e[2][1]), bty[1]
@@ -517,7 +521,7 @@ class FnTr:
             parts = [self.tr(x, env, expect[1] if expect and expect[0] in ("arr", "list") else None) for x in e[1]]
             if len(parts) != 2:
                 ety = parts[0][1]
-                return "[" + ", ".join(p[0] for p in parts) + "]", (MSG if ety[0] == "nat" else ("list", ety))
+                return "[" + ", ".join(p[0] for p in parts) + "]", (MSG if ety == NAT() else ("list", ety))
             return "(" + ", ".join(p[0] for p in parts) + ")", ("arr", parts[0][1], len(parts))
         raise TErr(f"expression {k}")
 
@@ -771,7 +775,7 @@ class FnTr:
         if rt[0] in ("msg", "list", "str"):
             et = NAT() if rt[0] == "msg" else CHAR if rt[0] == "str" else rt[1]
             def lst(t):
-                return MSG if t[0] == "nat" else STR if t[0] == "char" else ("list", t)
+                return MSG if t == NAT() else STR if t[0] == "char" else ("list", t)
             if name == "len":
                 return f"{RV}.length", NAT(64)
             if name == "filter_map":
@@ -1116,6 +1120,8 @@ class FnTr:
         if k == "mcall":
             if node[2] in ("retain", "shrink_to_fit") and self.map_base(node[1], env):
                 acc.add(node[1][1][0])
+            if node[2] == "append" and node[1][0] == "path" and len(node[1][1]) == 1 and env.get(node[1][1][0], ("",))[0] in ("msg", "list"):
+                acc.add(node[1][1][0])
             if node[2] == "or_insert":
                 b = node[1]
                 while b[0] == "mcall":
@@ -1220,6 +1226,10 @@ class FnTr:
         if k == "index":
             base = lhs[1]
             btxt, bty = self.tr(base, env)
+            if bty[0] in ("msg", "list"):
+                # v[i] = x on a vector (an index out of range is a trap: C01 inventory / TransSafe)
+                idx, _ = self.tr(lhs[2], env, NAT(64))
+                return self.assign_text(base, f"{par(btxt)}.set {par(idx)} {par(rhs_txt)}", env)
             if bty[0] != "arr":
                 raise TErr("indexed assignment into " + str(bty))
             if lhs[2][0] == "lit_int":
@@ -1344,6 +1354,9 @@ class FnTr:
                 ms = self.map_stmt(e, env)
                 if ms is not None:
                     return ms + cont(env)
+                ls = self.vec_stmt(e, env)
+                if ls is not None:
+                    return ls + cont(env)
                 mc = self.mut_call_stmt(e, env)
                 if mc is not None:
                     return mc + cont(env)
@@ -1362,6 +1375,26 @@ class FnTr:
                 raise TErr(f"macro {e[1]}! as a statement")
             raise TErr(f"expression statement {k0}")
         raise TErr("statement " + s[0])
+
+    def vec_stmt(self, e, env):
+        """statements on a Vec local:  v.append(vec![x; n].as_mut());"""
+        if e[2] != "append" or e[1][0] != "path" or len(e[1][1]) != 1 or env.get(e[1][1][0], ("",))[0] not in ("msg", "list"):
+            return None
+        var = e[1][1][0]
+        vty = env[var]
+        a = e[3][0]
+        while a[0] == "paren" or (a[0] == "unary" and a[1] in ("&", "&mut")) or (a[0] == "mcall" and a[2] in ("as_mut", "as_mut_slice")):
+            a = a[1] if a[0] != "unary" else a[2]
+        if a[0] != "macro" or a[1] != "vec":
+            raise TErr("append of something that is not `vec![x; n]`")
+        p = R.Parser(list(a[2]) + [("eof", "")])
+        x = p.parse_expr()
+        p.expect(";")
+        n = p.parse_expr()
+        ety = NAT() if vty[0] == "msg" else vty[1]
+        xt, _ = self.tr(x, env, ety)
+        nt, _ = self.tr(n, env, NAT(64))
+        return f"let {lname(var)} := {lname(var)} ++ List.replicate {par(nt)} {par(xt)};\n"
 
     def map_base(self, e, env):
         """(variable, type) if `e` is a local of map type"""
@@ -1810,13 +1843,23 @@ class FnTr:
             fin = lambda env3: st
             b = self.seq(body[1], body[2], env2, fin, None, {}, allow_return=False)
             return (f"let {st} := {par(xs)}.foldl (fun st_ {par(ptxt)} =>\n  let {st} := st_;\n  {b}) {st};\n" + cont(env))
+        if not acc:
+            if inner[0] != "range" or inner[1] is None or inner[2] is None:
+                raise TErr("for over something that is not a literal range")
+            return cont(env)
+        count, lam, st, _, _ = self.for_range_parts(e, env, acc)
+        return f"let {st} := (List.range {count}).foldl {lam} {st};\n" + cont(env)
+
+    def for_range_parts(self, e, env, acc):
+        """`for PAT in lo..hi { body }` over the state `acc`: (number of iterations, the fold function, the state tuple,
+        the Lean name of the loop variable or None, lo) - the loop is `(List.range count).foldl lam st`"""
+        _, pat, it, body = e
+        inner = it[1] if it[0] == "paren" else it
         if inner[0] != "range" or inner[1] is None or inner[2] is None:
             raise TErr("for over something that is not a literal range")
         lo, _ = self.tr(inner[1], env, NAT())
         hi, _ = self.tr(inner[2], env, NAT())
         count = f"({hi} + 1 - {lo})" if inner[3] else f"({hi} - {lo})"
-        if not acc:
-            return cont(env)
         st = self.state_tuple(acc)
         env2 = dict(env)
         if pat[0] == "p_wild":
@@ -1829,7 +1872,8 @@ class FnTr:
         fin = lambda env3: st
         b = self.seq(body[1], body[2], env2, fin, None, {}, allow_return=False)
         bind = "" if var == "_" else f"let {lname(pat[1])} := {lo} + {var};\n"
-        return (f"let {st} := (List.range {count}).foldl (fun st_ {var} =>\n  let {st} := st_;\n  {bind}{b}) {st};\n" + cont(env))
+        lam = f"(fun st_ {var} =>\n  let {st} := st_;\n  {bind}{b})"
+        return count, lam, st, (None if var == "_" else lname(pat[1])), lo
 
     # ---- whole function, one auxiliary definition per top-level block ---------------------------------
     def translate_split(self):
@@ -2044,7 +2088,7 @@ def indent(t, n):
 TRANSLATE_BITS = [
     ("src/decoder/utils/calc.rs", ["bit_location", "range_value", "flag_and_range_value", "status_flag_and_range_value"]),
     ("src/decoder/downlink.rs", ["get_downlink_format"]),
-    ("src/decoder/utils/crc.rs", ["crc56", "crc112", "get_crc", "parity_ok"]),
+    ("src/decoder/utils/crc.rs", ["crc56", "crc112", "get_crc", "parity_ok", "reminder"]),
     ("src/decoder/utils/ma_code.rs", ["ma_code"]),
     ("src/decoder/adsb/altitude/graytobin.rs", ["extract_bit", "graytobin"]),
     ("src/decoder/utils/format.rs", ["clean_squitter"]),
@@ -2179,7 +2223,6 @@ def load_all(repo, plans=None):
 # functions of translated files that stay hand-modelled (float arithmetic, iterators, formatting, I/O, enum dispatch)
 NOT_TRANSLATED = {
     "src/decoder/utils.rs": ("get_hex_message",),
-    "src/decoder/utils/crc.rs": ("reminder",),
     "src/decoder/ehs/base.rs": ("track_and_groundspeed",),
     "src/decoder/bds/bds_1_7.rs": ("default",), "src/decoder/bds/bds_4_0.rs": ("default",), "src/decoder/bds/bds_5_0.rs": ("default",),
     "src/decoder/bds/bds_6_0.rs": ("default",), "src/decoder/bds/bds_4_4.rs": ("default",),
